@@ -125,18 +125,10 @@ def stale_analysis(prog, fn, refillers):
     return D, sorted(reports.items(), key=lambda kv: (kv[0][1] or 0)), n_refills
 
 
-def run(prog, chk):
-    chk.level = "other"
-    chk.explanation = ("Two necessary conditions of buffer-boundary independence, decided on the scanner's code: no local pointer "
-                       "derived from the scan window (buffer / next_char / text_start / tvalue_start) is read after a call that "
-                       "may reach get_more_chars (which moves or re-allocates the buffer) without being re-derived — a may-"
-                       "dataflow over every function of parser.c; every scanner branch taken on an end-of-line character either "
-                       "un-reads it or performs the line accounting, and the two copies of that accounting agree; "
-                       "get_more_chars re-bases all window pointers whenever it moves the data.  The arithmetic of per-fill "
-                       "CR LF folding is value-level and not decided.")
+def stale_pointer_rule(prog, chk, rid="R1", primary=True):
     refillers = may_refill(prog)
-    r1 = chk.rule("R1-no-stale-window-pointer", "no local derived from the scan window is read after a (transitive) call to "
-                  "get_more_chars without being re-derived", floor=6)
+    r1 = chk.rule(rid + "-no-stale-window-pointer", "no local derived from the scan window is read after a (transitive) call to "
+                  "get_more_chars without being re-derived", floor=6, primary=primary)
     n_locals = 0
     for fn in prog.all_functions():
         if fn.unit != "parser.c":
@@ -159,6 +151,18 @@ def run(prog, chk):
         raise Broken("only %d window-derived locals found" % n_locals)
     chk.extra_cov["may_refill_functions"] = sorted(refillers)
 
+
+
+def run(prog, chk):
+    chk.level = "other"
+    chk.explanation = ("Two necessary conditions of buffer-boundary independence, decided on the scanner's code: no local pointer "
+                       "derived from the scan window (buffer / next_char / text_start / tvalue_start) is read after a call that "
+                       "may reach get_more_chars (which moves or re-allocates the buffer) without being re-derived — a may-"
+                       "dataflow over every function of parser.c; every scanner branch taken on an end-of-line character either "
+                       "un-reads it or performs the line accounting, and the two copies of that accounting agree; "
+                       "get_more_chars re-bases all window pointers whenever it moves the data.  The arithmetic of per-fill "
+                       "CR LF folding is value-level and not decided.")
+    stale_pointer_rule(prog, chk)
     r2 = chk.rule("R2-line-accounting", "every scan function that consumes an end-of-line character performs the HANDLE_EOL "
                   "accounting (over-length check, CR LF state, line += ..., column = 0) or un-reads it; both copies of the "
                   "accounting agree", floor=4)
